@@ -38,6 +38,8 @@ REQUIRED_THEOREMS = [
     "run_succ", "run_depends_only_on_prefix", "run_explicit_total", "run_zero_variance",
     "milstein_step_is_textbook", "em_step_is_textbook", "drift_is_textbook",
     "semi_implicit_ignores_interpretation", "hasDrift_iff_alpha_ne_zero",
+    "sys_euler_step_formula", "sys_milstein_step_formula", "milstein_term_is_textbook_ring",
+    "milstein_eq_em_plus_correction", "stratonovich_drift_milstein", "variance_layout_per_field_full",
 ]
 RULE = ("seed-derived (grid of any class incl. polar/spherical/cylindrical with non-uniform cell volumes, field type "
         "scalar/vector/tensor/collection, rate, variance kind scalar/per-component/per-field/field-dependent, "
@@ -456,9 +458,14 @@ def real_case(case):
         b == 0 and c == 0 for b, c in zip(case["eq"].get("b", [1]), case["eq"].get("c", [1])))
     if tight:
         out["n_monitors"] += 1
-        exp = py_replay(case, grid, rate_fn, u0, xis, total)
+        with np.errstate(all="ignore"):
+            exp = py_replay(case, grid, rate_fn, u0, xis, total)
         ok, dev = close_arrays(exp, final, RTOL_MONITOR if case["solver"] != "implicit" else 1e-8)
-        if not ok:
+        if not (np.all(np.isfinite(exp)) and np.abs(exp).max() < 1e6):
+            # the documented update itself leaves the stability region: round-off is amplified without
+            # bound, nothing can be compared (the generator avoids this; counted in the evidence)
+            out["unstable"] = True
+        elif not ok:
             # locate the first deviating step with single-step runs
             first = None
             if not legacy and not light:
@@ -476,7 +483,9 @@ def real_case(case):
     # --- monitor: vanishing variance -> deterministic ------------------------------------------
     var0, _ = expected_variance(case, grid, u0)
     zero_mask = None
-    if case["noise"]["kind"] == "quad":
+    if case["eq"].get("real") is not None:
+        pass  # the second noise interface adds its own term
+    elif case["noise"]["kind"] == "quad":
         if all(x == 0 for x in case["noise"]["g0"]) and all(x == 0 for x in case["noise"]["g2"]):
             zero_mask = np.ones(shape, dtype=bool)
     elif case["eq"]["family"] == "local" and case["eq"].get("real") is None and case["solver"] != "implicit":
@@ -611,7 +620,7 @@ def data_shape(gd, fd):
 
 
 def gen_noise(rng, gd, fd, ncomp, exact=False, allow_quad=True):
-    vals = [0.0, 0.25, 1.0, 0.0625, 4.0, 2.25] if exact else [0.0, 0.1, 0.3, 1.0, 0.02, 2.5, 1e-3, 0.7]
+    vals = [0.0, 0.25, 1.0, 0.0625, 4.0, 2.25] if exact else [0.0, 0.1, 0.3, 1.0, 0.02, 2.5, 1e-3, 0.7, 1e-12, 1e4]
     nonzero = [v for v in vals if v]
     r = rng.random()
     if allow_quad and r < 0.3:
@@ -641,6 +650,25 @@ def gen_noise(rng, gd, fd, ncomp, exact=False, allow_quad=True):
     return {"kind": "per-component", "values": v, "nshape": list(nshape)}
 
 
+def stabilise(gd, dt, steps, b, c, noise):
+    """generator heuristic only: keep the explicit schemes inside their stability region (small cells make
+    the noise amplitude sqrt(var*dt/V) large), so that trajectories can be compared to round-off"""
+    vmin = float(np.min(make_grid(gd).cell_volumes))
+    if noise["kind"] == "quad":
+        lim = 0.05 * vmin / dt
+        noise = dict(noise, g2=[x if x <= lim else float("%.2g" % lim) for x in noise["g2"]],
+                     g0=[x if x * dt / vmin <= 0.5 else float("%.2g" % (0.5 * vmin / dt)) for x in noise["g0"]])
+        vmax = max(noise["g0"]) + 4 * max(noise["g2"])
+    else:
+        vmax = max([noise.get("value", 0)] + list(noise.get("values", [])))
+    amp = 2.0 + 4 * math.sqrt(vmax * dt * steps / vmin)
+    if dt * amp ** 2 > 0.3:
+        c = [0.0] * len(c)  # a cubic rate would leave the stability region
+    if vmax * dt / vmin > 1:
+        b = [min(x, 0.0) for x in b]
+    return b, c, noise
+
+
 def gen_local_case(rng, exact=False, backend="numpy"):
     gd = gen_grid(rng, exact=exact)
     fd = gen_field(rng, gd, max_entries=12 if exact else 160)
@@ -659,7 +687,7 @@ def gen_local_case(rng, exact=False, backend="numpy"):
         if solver == "implicit":
             solver = rng.choice(["euler", "milstein"])  # convergence test at Rat would differ from the float run by rounding
     else:
-        dt = rng.choice([1e-3, 0.01, 0.005, 1 / 64, 1 / 256, 0.03, 0.002, 0.1])
+        dt = rng.choice([1e-3, 0.01, 0.005, 1 / 64, 1 / 256, 0.03, 0.002, 0.1, 1e-6])
         steps = rng.choice([1, 1, 2, 3, 5, 8, 13, 20])
         a = [round(rng.uniform(-1, 1), 3) for _ in range(ncomp)]
         b = [round(rng.uniform(-2, 0.5), 3) for _ in range(ncomp)]
@@ -667,8 +695,11 @@ def gen_local_case(rng, exact=False, backend="numpy"):
         if rng.random() < 0.15:
             a, b, c = [0.0] * ncomp, [0.0] * ncomp, [0.0] * ncomp
         u0 = [rng.uniform(-1.5, 1.5) for _ in range(ncomp * ncell)]
+    noise = gen_noise(rng, gd, fd, ncomp, exact=exact)
+    if not exact:
+        b, c, noise = stabilise(gd, dt, steps, b, c, noise)
     case = {"grid": gd, "field": fd, "eq": {"family": "local", "a": a, "b": b, "c": c},
-            "noise": gen_noise(rng, gd, fd, ncomp, exact=exact), "interp": interp, "solver": solver, "dt": dt,
+            "noise": noise, "interp": interp, "solver": solver, "dt": dt,
             "steps": steps, "seed": rng.randint(0, 2 ** 31), "rng_as": rng.choice(["generator", "generator", "int", "advanced"]),
             "u0": u0, "backend": backend}
     if case["rng_as"] == "advanced":
@@ -889,6 +920,11 @@ def judge(ctx, leg, case, res, resp, mode):
         if st != "ok" or val["final"] is not None:
             ctx.disagree(leg, case, "model converges" if st == "ok" else f"model error: {val}", res["error"], "convergence of the implicit iteration")
         return
+    if res.get("unstable"):
+        ctx.count(case_key(case), nontrivial=False, leg=leg)
+        ctx.hist("stability", "documented update unstable: not compared")
+        return
+    ctx.hist("stability", "stable")
     ctx.count(case_key(case), nontrivial=bool(nonzero and res.get("moved")), leg=leg)
     ctx.monitor_evals += res["n_monitors"]
     for m in res["monitor"]:
@@ -953,23 +989,23 @@ def run(ctx):
     src = {"NUMBA_DISABLE_JIT": "1"}
     jit = {"NUMBA_DISABLE_JIT": "0"}
 
-    local = [gen_local_case(rng) for _ in range(ctx.budget(220, 2400))]
-    recorded = [gen_recorded_case(rng) for _ in range(ctx.budget(40, 500))]
-    exact = [gen_local_case(rng, exact=True) for _ in range(ctx.budget(50, 500))]
-    nb_src = [gen_local_case(rng, backend="numba") for _ in range(ctx.budget(40, 400))]
+    local = [gen_local_case(rng) for _ in range(ctx.budget(500, 5000))]
+    recorded = [gen_recorded_case(rng) for _ in range(ctx.budget(50, 400))]
+    exact = [gen_local_case(rng, exact=True) for _ in range(ctx.budget(120, 1000))]
+    nb_src = [gen_local_case(rng, backend="numba") for _ in range(ctx.budget(120, 1000))]
     for c in nb_src:
         c["rng_as"] = "legacy"
         c.pop("advance", None)
     nb_jit = []
-    for _ in range(ctx.budget(6, 60)):
+    for _ in range(ctx.budget(6, 48)):
         c = gen_local_case(rng, backend="numba")
         c.update(rng_as="legacy", jit=True, light=True)
         c.pop("advance", None)
         nb_jit.append(c)
-    rec_jit = [dict(c, light=True) for c in rng.sample(recorded, min(len(recorded), ctx.budget(3, 40)))]
-    malformed = [gen_malformed(rng) for _ in range(ctx.budget(30, 200))]
+    rec_jit = [dict(c, light=True) for c in rng.sample(recorded, min(len(recorded), ctx.budget(3, 30)))]
+    malformed = [gen_malformed(rng) for _ in range(ctx.budget(40, 300))]
     sjobs = []
-    for k in range(ctx.budget(6, 36)):
+    for k in range(ctx.budget(6, 24)):
         cls = ["PolarSymGrid", "SphericalSymGrid", "CartesianGrid", "CylindricalSymGrid"][k % 4]
         if cls == "CylindricalSymGrid":
             gd = {"cls": cls, "shape": [64, 64], "bounds": [[0.0, 16.0], [0.0, 32.0]], "periodic": [False, False]}
@@ -988,13 +1024,13 @@ def run(ctx):
 
     def run_jit():
         try:
-            box["jit"] = fan_out(jobs_jit, jit, 6)
+            box["jit"] = fan_out(jobs_jit, jit, 8)
         except BaseException as e:  # noqa
             box["exc"] = e
 
     th = threading.Thread(target=run_jit)
     th.start()
-    res_src = fan_out(jobs_src, src, 10)
+    res_src = fan_out(jobs_src, src, 8)
     th.join()
     if "exc" in box:
         raise box["exc"]
